@@ -475,8 +475,8 @@ func c13Storm(c *fw.Case) {
 			small = append(small, t)
 		}
 	}
-	kind := []string{"String", "IEncode", "Utf8ToUcs2Pooled", "MsgID2String", "String"}[c.Idx%5]
-	G := []int{64, 48, 96, 64}[c.Idx/5%4]
+	kind := []string{"String", "IEncode", "Utf8ToUcs2Pooled", "MsgID2String", "String", "GSM7Unpacked.Encode", "Latin1+UCS2.Encode"}[c.Idx%7]
+	G := []int{64, 48, 96, 64}[c.Idx/7%4]
 	iters := 600
 	if c.Tier == fw.Thorough {
 		iters = 4000
@@ -498,6 +498,23 @@ func c13Storm(c *fw.Case) {
 					call = func() string { return digestLines(pd.String()) }
 				} else {
 					call = func() string { b, err := pd.IEncode(); return fmt.Sprintf("%x %v", b, err) }
+				}
+			case "GSM7Unpacked.Encode", "Latin1+UCS2.Encode":
+				// texts at the sizes scratch buffers are made of (a power of two, one less, one more) and ordinary ones
+				n := c.R.Pick(255, 256, 256, 257, 127, 128, 129, 511, 512, 513, 64, c.R.Range(1, 300))
+				letters := make([]byte, n)
+				for i := range letters {
+					letters[i] = byte('a' + c.R.Intn(26))
+				}
+				text := string(letters)
+				if kind == "GSM7Unpacked.Encode" {
+					call = func() string { b, err := datacoding.GSM7Unpacked(text).Encode(); return fmt.Sprintf("%x %v", b, err) }
+				} else {
+					call = func() string {
+						a, e1 := datacoding.Latin1(text).Encode()
+						b, e2 := datacoding.UCS2(text).Encode()
+						return fmt.Sprintf("%x %v %x %v", a, e1, b, e2)
+					}
 				}
 			case "Utf8ToUcs2Pooled":
 				text, _ := randomText(c.R, 40)
@@ -556,7 +573,7 @@ func init() {
 	fw.Register(&fw.Prop{
 		ID:        "C13",
 		Technique: "Go race detector over a multi-goroutine mixed workload (configuration A: no hook handler installed, so monitors add no synchronisation) + sequential-equivalence oracle + pool-ownership monitor and Yield-hook schedule perturbation (configuration B)",
-		Rule: "each case: G in {2,4,8,16,32,64} goroutines, each running its own PRNG op list (encode, decode, dispatcher+String, String, both splitters, Build, six text codecs, pooled UCS-2, TLV container, message id, receipts, images that end early (the error is compared too), and a pool of six texts that several goroutines split at the same time each with its own reference byte) on its own values; results compared with the same lists executed alone, and the last 32 results each goroutine holds re-read every 16 calls and at the end of its list; worker processes with GOMAXPROCS in {1,2,4,8,16}; storm stages: 48..96 goroutines in a tight loop on one kind of call (String / IEncode of header-only PDUs, pooled UCS-2, message-id strings), every result compared with the value computed alone; " +
+		Rule: "each case: G in {2,4,8,16,32,64} goroutines, each running its own PRNG op list (encode, decode, dispatcher+String, String, both splitters, Build, six text codecs, pooled UCS-2, TLV container, message id, receipts, images that end early (the error is compared too), and a pool of six texts that several goroutines split at the same time each with its own reference byte) on its own values; results compared with the same lists executed alone, and the last 32 results each goroutine holds re-read every 16 calls and at the end of its list; worker processes with GOMAXPROCS in {1,2,4,8,16}; storm stages: 48..96 goroutines in a tight loop on one kind of call (String / IEncode of header-only PDUs, pooled UCS-2, message-id strings, text codecs on texts of 2^k and 2^k±1 octets), every result compared with the value computed alone; " +
 			"distinct_nontrivial = distinct (stage, G, op kind) combinations executed + distinct interleaving fingerprints (hash of the (goroutine, site) order at Yield points) in configuration B; race reports are deduplicated by the pair of innermost library frames",
 		Assumptions: []string{
 			"a clean run is 'no race observed in these executions', not race freedom; the race detector only sees accesses the workload performs",
